@@ -30,7 +30,7 @@ import numpy as np
 
 from .. import core, sched
 from .. import lattice as L
-from ..faultfs import VerifFS
+from ..faultfs import LISTING_ORDERS, VerifFS
 
 LEVEL = "model_checking"
 RETRY = dict(wait_exponential_multiplier=1, wait_exponential_max=1, stop_max_attempt_number=3)     # the keys of the library's own default, 1 ms waits
@@ -48,6 +48,17 @@ def frame6():
     return GeoDataFrame({"pts": L.make_array("point", pts, "float64"), "val": np.arange(6),
                          "polys": L.make_array("polygon", polys, "float64")},
                         index=pd.Index(np.arange(6) + 100, name="idx"), geometry="pts")
+
+
+def frame_ties():
+    """every point occurs once in EACH input partition (rows 0-3 / 4-7 with npartitions=2): every output partition is
+    concatenated from two sub-parts whose rows have pairwise equal Hilbert distances, so the order of the written rows
+    shows the order the sub-parts were read in"""
+    import pandas as pd
+    from spatialpandas import GeoDataFrame
+    pts = [(0, 0), (7, 7), (1, 6), (6, 1)] * 2
+    return GeoDataFrame({"pts": L.make_array("point", pts, "float64"), "val": np.arange(8)},
+                        index=pd.Index(np.arange(8) + 100, name="idx"), geometry="pts")
 
 
 def right_polys():
@@ -144,17 +155,17 @@ def e3a_harnesses(scratch):
         return tuple(parts)
     H["pack_partitions"] = mk(pack)
 
-    def pack_parquet(mode):
+    def pack_parquet(mode, listing="native", frame=None, npk=4):
         def fn(ctl):
             work = os.path.join(scratch, f"pp-{os.getpid()}-{threading.get_ident()}")
             shutil.rmtree(work, ignore_errors=True)
             os.makedirs(os.path.join(work, "tmpbase"))
             path = os.path.join(work, "ds.parq")
             fmt = None if mode == "default" else os.path.join(work, "tmpbase", "t-{uuid}-{partition}")
-            fs = VerifFS(yield_hook=lambda n, name, p: sched.maybe_yield(f"fs:{name}"))
+            fs = VerifFS(yield_hook=lambda n, name, p: sched.maybe_yield(f"fs:{name}"), listing=listing)
             with dask.config.set(scheduler=ctl):
-                ret = dd.from_pandas(fresh(P), npartitions=2).pack_partitions_to_parquet(
-                    path, filesystem=fs, npartitions=4, p=6, tempdir_format=fmt, _retry_args=RETRY)
+                ret = dd.from_pandas(fresh(P if frame is None else frame), npartitions=2).pack_partitions_to_parquet(
+                    path, filesystem=fs, npartitions=npk, p=6, tempdir_format=fmt, _retry_args=RETRY)
                 rv = rows(ret.compute())
             st = dataset_state(path, os.path.join(work, "tmpbase"))
             shutil.rmtree(work, ignore_errors=True)
@@ -162,6 +173,12 @@ def e3a_harnesses(scratch):
         return fn
     H["pack_to_parquet:default"] = mk(pack_parquet("default"))
     H["pack_to_parquet:external"] = mk(pack_parquet("external"))
+    # tied Hilbert distances on a filesystem that lists in creation order: the directory listing is an answer of the
+    # environment that depends on which task created its sub-part first, i.e. on the schedule
+    T8 = frame_ties()
+    for order in LISTING_ORDERS:
+        H[f"pack_to_parquet:ties:{order}"] = mk(pack_parquet("default", order, T8, 2))
+    H["pack_to_parquet:ties-external:creation"] = mk(pack_parquet("external", "creation", T8, 2))
 
     def read_back(ctl):
         # written lazily inside the worker process (no Dask / pyarrow I/O in the parent before the fork)
@@ -215,6 +232,36 @@ def run_e3a(col, scratch, name, W, bound, shard):
 # ------------------------------------------------------------------------------------------------
 # E3b: client threads on one shared object
 # ------------------------------------------------------------------------------------------------
+def run_listing(col, scratch):
+    """the order a directory is listed in is an answer of the environment: the written dataset must be the same for every
+    order (default schedule, W = 1 and 2); the creation-order variants are explored over schedules by run_e3a"""
+    H = e3a_harnesses(scratch)
+    for W in (1, 2):
+        outs = {}
+        for order in LISTING_ORDERS:
+            name = f"pack_to_parquet:ties:{order}"
+            try:
+                obs = H[name](sched.Chooser([]), W)
+            except core.HarnessError:
+                raise
+            except Exception as ex:
+                col.violation(f"e3a.{name}.raises", {"engine": "E3a-listing", "harness": name, "workers": W},
+                              f"{type(ex).__name__}: {str(ex)[:300]}", harness=name)
+                continue
+            col.count("evaluations")
+            col.count("states")
+            col.count("nontrivial", 1 if order != "native" else 0)
+            outs.setdefault(obs, order)
+        col.outcome(f"e3a:listing-orders:W{W}:outcomes={len(outs)}")
+        if len(outs) > 1:
+            keys = list(outs)
+            col.violation("e3a.listing_order", {"engine": "E3a-listing", "workers": W, "orders": [outs[k] for k in keys]},
+                          f"pack_partitions_to_parquet W={W}: a filesystem that lists in '{outs[keys[1]]}' order gives a different "
+                          f"dataset than one that lists in '{outs[keys[0]]}' order: {keys[1][:300]} vs {keys[0][:300]}",
+                          harness="pack_to_parquet:ties")
+    col.sample({"engine": "E3a-listing", "harness": "pack_to_parquet:ties", "listing_orders": list(LISTING_ORDERS), "workers": [1, 2]})
+
+
 def cache_code_objects():
     import spatialpandas.dask as spd
     from spatialpandas.geometry import base
@@ -822,6 +869,15 @@ def plan_for(T):
             nsh = 8 if heavy else (4 if (T and name in ("rowwise", "pack_partitions")) else 1)
             for sh in range(nsh):
                 units.append(("e3a", name, W, bound, (sh, nsh)))
+    for name in ("pack_to_parquet:ties:creation", "pack_to_parquet:ties:creation_desc", "pack_to_parquet:ties-external:creation"):
+        if not T and not name.endswith(":creation"):
+            continue
+        for W in (1, 2, 3) if T else (1, 2):
+            if not T and W == 1 and "external" in name:
+                continue
+            for sh in range(8):
+                units.append(("e3a", name, W, 2 if T else 1, (sh, 8)))
+    units.append(("listing", None, None, None, None))
     for name in e3b_names():
         if T:
             bound, nsh = 2, (8 if name.startswith("dask") else 2)
@@ -887,6 +943,8 @@ def run(ctx):
                 run_e3a(col, scratch, name, W, bound, shard)
             elif kind == "e3b":
                 run_e3b(col, name, bound, shard, scope=W)
+            elif kind == "listing":
+                run_listing(col, scratch)
             elif kind == "e3c":
                 run_e3c(col, bound)
             elif kind == "packs":
@@ -946,6 +1004,8 @@ def replay(ctx, case):
         got = H[case["harness"]](sched.Chooser(case["schedule"]), case["workers"])
         if ref != got:
             col.violation("e3a." + case["harness"], case, "schedule still gives a different result")
+    elif eng == "E3a-listing":
+        run_listing(col, scratch)
     elif eng == "E3b":
         run_e3b(col, case["harness"], case["bound"], None, scope=case.get("scope", "caches"))
     elif eng == "E3c":
